@@ -5,6 +5,6 @@ P="$1"; ID="$2"; shift 2
 cd /repo || exit 2
 if ! git diff --quiet; then echo "/repo is dirty; refusing"; exit 2; fi
 git apply "$P" || { echo "patch does not apply"; exit 2; }
-trap 'git -C /repo checkout -- . ; git -C /repo clean -fdq' EXIT INT TERM
+trap 'git -C /repo checkout -- . ; git -C /repo clean -fdq' EXIT INT TERM PIPE HUP
 cd /verif && ./bin/check "$ID" "$@"
 echo "check exit=$?"
